@@ -110,6 +110,41 @@ def h_src_eof(ctx, NMAX):
     ctx.covered("loop_exhausted")
 
 
+def h_src_eof_env_fails(ctx, NMAX):
+    """silent peer AND a failing environment: after the first EOF the user's filestore can no longer produce
+    the checksum (the source file vanished), so every re-generation of the EOF PDU raises out of the call.
+    The expiries still count: the transaction must not hang"""
+    w = World(ctx)
+    limit = ctx.int("limit", 1, NMAX)
+    sc = hsrc.SrcScenario(ctx, w, mode=ACK, closure=bool(ctx.choice("closure", 2)), M=1,
+                          rig_kwargs={"ack_limit": limit})
+    sc.put()
+    o = sc.sm()
+    sc.remember_conf()
+    for _ in range(4):
+        o = sc.sm()
+        hsrc.end_if_other_property(ctx, o)
+        if "EOF" in o.kinds():
+            break
+    ctx.prop("eof_sent", sc.rig.h.step == SStep.WAITING_FOR_EOF_ACK)
+    sc.rig.fs.reject = lambda kind, p: FileNotFoundError if kind == "checksum" else None
+    raised = 0
+    for r in range(2 * NMAX + 3):
+        if sc.rig.idle:
+            break
+        w.tick(1)
+        o = sc.sm()
+        if o.exc is not None:
+            ctx.prop("only_the_environment_error_surfaces", isinstance(o.exc, FileNotFoundError),
+                     lambda: {"sig": rigs.exc_sig(o.exc)})
+            raised += 1
+    if raised:
+        ctx.covered("environment_error_surfaced")
+    ctx.prop("silent_peer_cannot_hang_the_transaction", sc.rig.idle,
+             lambda: {"sig": f"still {sc.rig.h.step.name} after {2 * NMAX + 3} expiries with limit <= {NMAX} "
+                             "(filestore fails while the EOF is re-generated)"})
+
+
 def _after_limit_cancel_exchange(ctx, sc, limit, NMAX, cond):
     """receiver: Finished(cancel) exchange must time out into abandonment after `limit` more expiries"""
     rt = Retry(limit)
@@ -350,6 +385,8 @@ def plan(tier):
     return [
         Spec(f"src/eof-ack-procedure/Nmax={n}", "vf.harness.c04:h_src_eof", {"NMAX": n}, twin_share=0.2,
              obligations=["limit_fault", "abandoned", "peer_resumed"] + (["eof_resent"] if n > 1 else [])),
+        Spec(f"src/eof-ack-procedure/filestore-fails/Nmax={n}", "vf.harness.c04:h_src_eof_env_fails", {"NMAX": n},
+             twin_share=0.5, obligations=["environment_error_surfaced"]),
         Spec(f"dest/finished-ack-procedure/Nmax={n}", "vf.harness.c04:h_dst_fin", {"NMAX": n}, twin_share=0.2,
              obligations=["limit_fault", "peer_resumed", "finished_resent"]),
         Spec(f"dest/nak-procedure/Nmax={n}", "vf.harness.c04:h_dst_nak", {"NMAX": n}, twin_share=0.2,
@@ -364,7 +401,7 @@ def plan(tier):
 
 
 BOUNDS = {
-    "quick": "limit symbolic in [1,3]; clock advance per call symbolic 0..2 intervals; sender EOF procedure (incl. EOF(cancel) phase and abandonment, ACK arriving at any round), receiver Finished procedure (incl. Finished(cancel) phase and abandonment, ACK at any round), receiver NAK procedure on a two-segment file and, with a maximum packet length forcing one request per NAK PDU, on a three-segment file with two gaps (two NAK PDUs per sequence), and with the Metadata PDU lost (EOF first or after one File Data PDU; the sequence re-requests (0,0) and the whole file) (progress at any round resets the count; after the limit fault the Finished(cancel) exchange with limit 1 must end in abandonment)",
+    "quick": "limit symbolic in [1,3]; clock advance per call symbolic 0..2 intervals; sender EOF procedure (incl. EOF(cancel) phase and abandonment, ACK arriving at any round and with any transaction status; and with a filestore that fails whenever the EOF is re-generated: the transaction still ends), receiver Finished procedure (incl. Finished(cancel) phase and abandonment, ACK at any round), receiver NAK procedure on a two-segment file and, with a maximum packet length forcing one request per NAK PDU, on a three-segment file with two gaps (two NAK PDUs per sequence), and with the Metadata PDU lost (EOF first or after one File Data PDU; the sequence re-requests (0,0) and the whole file) (progress at any round resets the count; after the limit fault the Finished(cancel) exchange with limit 1 must end in abandonment)",
     "thorough": "limit symbolic in [1,5]",
 }
 OUTSIDE = "limits above Nmax; the two waits the documentation lists as unimplemented inactivity handling; check-limit timers (C13); handler codes other than the defaults (C14)"
